@@ -95,7 +95,20 @@ func runC11(c *ctx, via string, vol float64, repeat, freq, peak, sd time.Duratio
 	if peakTick >= nTicks {
 		peakTick = nTicks - 1
 	}
-	for k := 0; k < nWin; k++ {
+	// the windows are normally visited one after another; every third weighted trace visits them out of
+	// order (a window skipped, the clock stepped back): each window's volume depends on ITS place in the
+	// weight cycle only
+	visit := make([]int, nWin)
+	for k := range visit {
+		visit[k] = k
+	}
+	if nw > 0 && c.rng.Intn(3) == 0 {
+		for k := range visit {
+			visit[k] = c.rng.Intn(nWin + 3)
+		}
+		tr.Args += fmt.Sprintf(" visit=%v", visit)
+	}
+	for _, k := range visit {
 		start := t0.Add(time.Duration(k) * repeat)
 		w := c11win{MinV: math.MaxInt32}
 		wk := 1.0
